@@ -104,7 +104,7 @@ func (e *Eng) actDeviceDecide() {
 		}
 	}
 	subject := fmt.Sprintf("user-%d", d.G.N)
-	ok := e.w.DeviceDecide(d.UserCode, accept, h.Consent{Session: e.w.Sess(subject), Scopes: append([]string{}, granted...)})
+	ok := e.w.DeviceDecide(d.UserCode, accept, h.Consent{Session: e.sessFor(subject), Scopes: append([]string{}, granted...)})
 	e.step(fmt.Sprintf("deviceDecide:%v", accept))
 	exp := e.timeExpired(d)
 	e.logf("deviceDecide %v accept=%v granted=%q -> found=%v (expiry state %v)", d, accept, granted, ok, exp)
